@@ -237,7 +237,7 @@ func init() {
 			if err == nil {
 				sink = t.String()
 			}
-			return errClass(err), nil
+			return errClass(err), func() string { return fmt.Sprintf("%x", uint64(t)) }
 		}},
 		target{"avc.ParseSliceHeader", false, func(in []byte, arg int) (string, func() string) {
 			c := contextSets()
